@@ -126,7 +126,10 @@ def check(case, rec):
                     ch[a:b]
                 else:
                     a = x % n
-                    ch[a]
+                    if y % 2:
+                        ch[a - n]           # the same element addressed from the end
+                    else:
+                        ch[a]
                     b = a + 1
             except Exception as e:      # noqa
                 rec.violation('request:raised', '%r on %s: %s' % (req, p, describe_exc(e)), key=exc_key(e))
@@ -190,7 +193,7 @@ def cases(draw, **kw):
         if kind == 'index' and draw(st.booleans()):
             # neighbour index: often falls into the chunk just read
             r = reqs[-1]
-            reqs.append(['index', r[1], r[2] + draw(st.integers(-1, 1)), 0])
+            reqs.append(['index', r[1], r[2] + draw(st.integers(-1, 1)), draw(st.integers(0, 1))])
     cut = draw(st.one_of(st.none(), st.none(), st.integers(0, 10 ** 6)))
     if cut is not None and any(t == 'str' for (_p, t, _n) in fs['segments'][-1]['active']):
         cut = None
